@@ -130,6 +130,9 @@ type (
 	ChanT  chan int
 )
 
+// Level is a package-level variable read by generators through a qualified identifier (rt.Level).
+var Level int
+
 // B2I converts a bool to 0 / 1.
 func B2I(b bool) int {
 	if b {
